@@ -49,6 +49,7 @@ func checkC09(r *Run) {
 	r4 := r.Rule("R-C09-4", "graceful end (Err() == nil after Done()) returns instead of redialling")
 	r5 := r.Rule("R-C09-5", "exactly one CONNECT per dialled connection, carrying the caller's client id and options")
 	r6 := r.Rule("R-C09-6", "a keep-alive failure makes the loop come round: KeepAlive classifies a timeout as a non-nil error and the keep-alive goroutine closes the watched connection")
+	r7 := r.Rule("R-C09-7", "the loop stops only on request: every return lies behind ctx done, `disconnected`, or a graceful end (Err() == nil)")
 	m, why := c.reconnModel()
 	if m == nil {
 		r1.Lost("reconnect-loop", "%s", why)
@@ -401,6 +402,7 @@ func checkC09(r *Run) {
 		r4.Lost(key+"/connected-wait", "connected-phase select not found")
 	}
 	c.ruleErrBeforeDone(r4)
+	c.ruleLoopStopsOnlyOnRequest(r7, m)
 	// ---- R-C09-6
 	c.ruleKeepAliveReaction(r6, m, "R-C09-6")
 	if ka := c.Func("KeepAlive"); ka != nil && len(ka.Params) == 4 {
@@ -494,6 +496,102 @@ func checkC09(r *Run) {
 				}
 			}
 		}
+	}
+}
+
+// ruleLoopStopsOnlyOnRequest (R-C09-7): the reconnect loop's goroutine returns only for a reason the property allows — the
+// caller's/loop's own context is done, `disconnected` was closed, or the connection ended gracefully (Err() == nil). Every
+// path from the goroutine's entry to a return must take one of those edges; a return reachable otherwise (a CONNACK
+// time-out, a particular error value, …) ends reconnecting for good while requests are still queued.
+func (c *Ctx) ruleLoopStopsOnlyOnRequest(rr *RuleRep, m *reconnModel) {
+	f := m.F
+	key := FuncName(f)
+	// the loop context: the goroutine's context parameter or the cell holding it
+	isLoopCtx := func(v ssa.Value) bool {
+		if len(f.Params) == 0 {
+			return false
+		}
+		p := ssa.Value(f.Params[0])
+		if v == p || c.Resolve(v) == p {
+			return true
+		}
+		if u, ok := v.(*ssa.UnOp); ok && u.Op == token.MUL {
+			if cell, ok := c.addrRoot(u.X).(*ssa.Alloc); ok {
+				for _, st := range c.cellStores[cell] {
+					if st.Val == p {
+						return true
+					}
+				}
+			}
+		}
+		return false
+	}
+	ctxCall := func(v ssa.Value, method string) bool {
+		k, ok := c.Resolve(v).(*ssa.Call)
+		if !ok || !k.Call.IsInvoke() || k.Call.Method.Name() != method || k.Call.Method.Pkg() == nil || k.Call.Method.Pkg().Path() != "context" {
+			return false
+		}
+		return isLoopCtx(k.Call.Value)
+	}
+	licensed := map[ifEdge]bool{}
+	errM := c.Method("BaseClient", "Err")
+	eachInstr(f, func(in ssa.Instruction) {
+		switch x := in.(type) {
+		case *ssa.Select:
+			for _, cs := range selectCases(x) {
+				if cs.State == nil || !cs.HasEdge || cs.State.Dir != types.RecvOnly {
+					continue
+				}
+				if _, isDisc := isFieldLoad(c.Resolve(cs.State.Chan), "reconnectClient", "disconnected"); isDisc || ctxCall(cs.State.Chan, "Done") {
+					licensed[cs.Edge] = true
+				}
+			}
+		case *ssa.If:
+			bin, ok := x.Cond.(*ssa.BinOp)
+			if !ok || (bin.Op != token.NEQ && bin.Op != token.EQL) {
+				return
+			}
+			var v ssa.Value
+			switch {
+			case isNilConst(bin.Y):
+				v = bin.X
+			case isNilConst(bin.X):
+				v = bin.Y
+			default:
+				return
+			}
+			nonNil, isNil := ifEdge{x.Block(), 0}, ifEdge{x.Block(), 1}
+			if bin.Op == token.EQL {
+				nonNil, isNil = isNil, nonNil
+			}
+			if ctxCall(v, "Err") {
+				licensed[nonNil] = true // the loop context is done
+			}
+			if k, ok := c.Resolve(v).(*ssa.Call); ok && errM != nil && c.StaticCalleeOf(&k.Call) == errM {
+				licensed[isNil] = true // graceful end
+			}
+		}
+	})
+	n := 0
+	for _, ret := range returnsOf(f) {
+		n++
+		_, reach := CanReach(f, nil, func(in ssa.Instruction) bool { return in == ssa.Instruction(ret) }, PathQ{BlockEdge: func(b *ssa.BasicBlock, k int) bool { return licensed[ifEdge{b, k}] }})
+		pos := ret.Pos()
+		if !pos.IsValid() {
+			for _, in := range ret.Block().Instrs {
+				if in.Pos().IsValid() {
+					pos = in.Pos()
+				}
+			}
+		}
+		if reach {
+			rr.Bad(key+"/stops", pos, "the reconnect loop can return on a path that neither observed its context done, nor `disconnected`, nor a graceful end (Err() == nil): reconnecting stops for good although nobody asked for it, and everything still queued is never sent")
+		} else {
+			rr.OK(key+"/stops", pos, "return only behind ctx.Done()/ctx.Err(), `disconnected`, or Err() == nil")
+		}
+	}
+	if n == 0 {
+		rr.OK(key+"/stops", f.Pos(), "the loop goroutine has no return")
 	}
 }
 
